@@ -96,8 +96,9 @@ def _reader(ctx, pkg):
     return {"fn": fn, "flow": fl, "stores": stores}
 
 
-def _split_src(v):
-    """value derived from `<line>.split(',')[k]` -> (line IR, k, wrappers outermost first)"""
+def _split_src(v, total=None):
+    """value derived from one field of `<line>.split(',')` -> (line IR, k, wrappers outermost first); the field may be reached through a
+    destructuring, a subscript of the split list or of a slice of it (_field_index)"""
     wraps = []
     x = v
     while True:
@@ -110,15 +111,64 @@ def _split_src(v):
             x = x[1]
             continue
         break
-    if x[0] == "item" and x[1][0] == "meth" and x[1][2] == "split" and x[1][3] == (("const", ","),):
-        return x[1][1], x[2], wraps
-    # fields[k] of the split record kept whole in a local
-    if x[0] == "sub" and x[1][0] == "meth" and x[1][2] == "split" and x[1][3] == (("const", ","),) and x[2][0] == "const" and type(x[2][1]) is int:
-        return x[1][1], x[2][1], wraps
-    if x[0] == "sub" and x[1][0] == "meth" and x[1][2] == "split" and x[1][3] == (("const", ","),) and x[2][0] == "unop" and x[2][1] == "USub" \
-            and x[2][2][0] == "const" and type(x[2][2][1]) is int:
-        return x[1][1], -x[2][2][1], wraps
+    fi = _field_index(x, total)
+    if fi is not None:
+        return fi[0][1], fi[1], wraps
     return None, None, wraps
+
+
+def _field_range(x, total=None):
+    """x: a contiguous run of the fields of `<line>.split(",")` -> (the split IR, lo, hi) in absolute field positions (hi None: open or
+    counted from the end while the record length `total` is not given), or None.  The starred middle of a destructuring starts at
+    its position and leaves out the targets after it; slices compose; negative bounds count from the end of the run."""
+    if x[0] == "meth" and x[2] == "split" and x[3] == (("const", ","),):
+        return (x, 0, total)
+    if x[0] == "item" and isinstance(x[2], tuple) and x[2] and x[2][0] == "star":
+        inner = _field_range(x[1], total)
+        if inner is None:
+            return None
+        i, n = x[2][1], x[2][2]
+        return (inner[0], inner[1] + i, None if inner[2] is None else inner[2] - (n - i - 1))
+    if x[0] == "sub" and x[2][0] == "slice" and x[2][3] == ("const", None):
+        inner = _field_range(x[1], total)
+        if inner is None:
+            return None
+
+        def bound(b_, default):
+            """absolute position of a slice bound inside the run, or "?" """
+            if b_ == ("const", None):
+                return default
+            k = b_[1] if b_[0] == "const" and type(b_[1]) is int else -b_[2][1] if b_[0] == "unop" and b_[1] == "USub" and b_[2][0] == "const" and type(b_[2][1]) is int else None
+            if k is None:
+                return "?"
+            if k >= 0:
+                return inner[1] + k if inner[2] is None else min(inner[1] + k, inner[2])
+            return "?" if inner[2] is None else max(inner[2] + k, inner[1])
+        lo_abs, hi_abs = bound(x[2][1], inner[1]), bound(x[2][2], inner[2])
+        if lo_abs == "?":
+            return None
+        return (inner[0], lo_abs, None if hi_abs == "?" else hi_abs)
+    return None
+
+
+def _field_index(x, total=None):
+    """x: ONE field of the split record -> (the split IR, absolute position; negative = from the end when the length is unknown), or None"""
+    if x[0] == "item" and isinstance(x[2], int):
+        run, k = x[1], x[2]
+    elif x[0] == "sub" and x[2][0] == "const" and type(x[2][1]) is int:
+        run, k = x[1], x[2][1]
+    elif x[0] == "sub" and x[2][0] == "unop" and x[2][1] == "USub" and x[2][2][0] == "const" and type(x[2][2][1]) is int:
+        run, k = x[1], -x[2][2][1]
+    else:
+        return None
+    fr = _field_range(run, total)
+    if fr is None:
+        return None
+    if k >= 0:
+        return (fr[0], fr[1] + k)
+    if fr[2] is not None:
+        return (fr[0], fr[2] + k)
+    return (fr[0], k) if fr[1] == 0 and run[0] == "meth" else None
 
 
 def _r1_r2(ctx, w, r):
@@ -170,7 +220,7 @@ def _r1_r2(ctx, w, r):
         if f is None:
             ctx.bad("R1", f"reader:{attr}", R, f"the reader never assigns self.{attr}")
             continue
-        ln, k, wraps = _split_src(simp(f.value))
+        ln, k, wraps = _split_src(simp(f.value), total)
         if ln is None:
             # not one field through converters.  Which fields of the record does the value depend on?  A value computed from ANOTHER column
             # (or from several) is visibly not the inverse of the writer; a value in which no field can be seen is not understood.
@@ -212,12 +262,13 @@ def _r1_r2(ctx, w, r):
             if m:
                 bv, body, base, ifs = m
                 found = show(base)[:100]
-                b = match(("sub", ("item", V("split"), V("star")), ("slice", V("lo"), V("hi"), ("const", None))), base)
-                if b and b["star"] == ("star", 1, 9) or (b and isinstance(b["star"], tuple) and b["star"][0] == "star" and b["star"][1] == 1):
-                    lo_v = b["lo"][1] if b["lo"][0] == "const" else None
-                    hi_v = b["hi"][1] if b["hi"][0] == "const" else None
-                    understood = b["lo"][0] == "const" and b["hi"][0] == "const"
-                    ok = (lo_v or 0) == lo and hi_v == hi
+                # which fields of the record, in absolute positions -- however the run is cut out (a slice of the starred middle, a slice of
+                # the split list itself, a slice of a slice)
+                fr = _field_range(base, total)
+                if fr is not None and fr[2] is not None:
+                    understood = True
+                    ok = (fr[1], fr[2]) == (1 + lo, 1 + hi)
+                    found = f"fields[{fr[1]}:{fr[2]}] of the record"
                 stripped = any(isinstance(x, tuple) and len(x) >= 3 and x[0] == "meth" and x[2] == "strip" and x[1] == bv for x in walk(body))
         if f is not None and not understood:
             ctx.unrec("R1", f"reader:{attr}:slice", (RFILE, f.line), f"cannot see which fields self.{attr} is built from: {show(simp(f.value))[:100]}")
@@ -860,3 +911,14 @@ MUTANTS += [
      "new": '        chemistry["rate_modifier"] = dict((str(key), value) for key, value in self._ratemodifier.items() if value)\n', "rules": ["R10"]},
     {"name": "config-surface-local-user-values-only", "file": CONF, "old": _CF_OLD, "new": _cf_local(" and s._binding_energy"), "rules": ["R6"]},
 ]
+
+_RD_SPLIT_OLD = '        idx, *rps, a, b, c, lt, ut, rtype, source = react_string.split(",")\n'
+
+
+def _rd_indexed(names):
+    """the record cut by index arithmetic instead of a starred destructuring"""
+    return ('        fields = react_string.split(",")\n        idx, rps, tail = fields[0], fields[1:-7], fields[-7:]\n        ' + names + ' = tail\n')
+
+
+BENIGN.append({"name": "reader-fields-by-index-arithmetic", "file": RFILE, "old": _RD_SPLIT_OLD, "new": _rd_indexed("a, b, c, lt, ut, rtype, source")})
+MUTANTS.append({"name": "reader-index-arithmetic-beta-gamma-swapped", "file": RFILE, "old": _RD_SPLIT_OLD, "new": _rd_indexed("a, c, b, lt, ut, rtype, source"), "rules": ["R1"]})
